@@ -247,7 +247,8 @@ Proof.
   destruct (forallb rf_satisfied _) eqn:Es; [|none_case].
   constructor; [|constructor]. destruct (guard_op _ _ _) as [[st' a]|] eqn:G; [|exact I].
   apply guard_op_some in G as (G & _ & <-). cbn. repeat split.
-  - exists o, rest. split; reflexivity.
+  - exists o, rest. split; [exact Eo|reflexivity].
+  - exact Es.
   - apply remove_feasible_in; exact G.
 Qed.
 
@@ -387,3 +388,35 @@ Definition ex_input : input :=
 Example repair_example :
   repair_required ex_input = true /\ replica_check ex_input = [Some (StMakeUp, AAdd 4 false)].
 Proof. split; vm_compute; reflexivity. Qed.
+
+(* ---------- the same for the rule checker ---------- *)
+Lemma cascade_None_all stages : In None (cascade stages) -> Forall (fun s => In None s) stages.
+Proof.
+  induction stages as [|s rest IH]; intros H; [constructor|].
+  apply cascade_None in H as [H1 H2]. constructor; [exact H1|apply IH; exact H2].
+Qed.
+
+Theorem rule_repair_proposed_when_possible inp :
+  i_entry inp = ERule ->
+  repair_required inp = true ->
+  (forall s, In s (i_stores inp) -> sid s <> 0) ->
+  ~ In None (rule_check inp).
+Proof.
+  intros He Hr Hids. unfold repair_required in Hr. rewrite He in Hr.
+  apply andb_true_iff in Hr as [Hok Hex]. apply existsb_exists in Hex as (rf & Hrf & Hc).
+  apply andb_true_iff in Hc as [Hlt Hsel].
+  unfold rule_check. destruct (fit_rules (i_fit inp)) as [|rf0 rfs] eqn:E; [contradiction|].
+  intros HN. apply cascade_None_all in HN. inversion HN as [|? ? _ HN']; subst.
+  rewrite Forall_forall in HN'. specialize (HN' (fix_rule_peer inp rf) (in_map _ _ _ Hrf)).
+  unfold fix_rule_peer in HN'. rewrite Hlt in HN'.
+  destruct (select_to_add _ _ _ _ _) as [|t ts] eqn:Es; [discriminate|].
+  apply in_map_iff in HN' as (t' & G & Ht).
+  assert (Hg : good_target (rule_strategy (rf_rule rf)) (i_stores inp) (i_region inp)
+                 (rule_stores (i_stores inp) rf) (fun _ => true) t').
+  { apply add_target_good. rewrite Es. exact Ht. }
+  unfold guard_op in G. destruct (add_feasible inp (sid t')) eqn:F; [discriminate|].
+  unfold add_feasible in F. rewrite Hok in F. cbn [andb] in F.
+  destruct Hg. apply andb_false_iff in F as [F|F].
+  - apply negb_false_iff in F. apply Z.eqb_eq in F. exact (Hids _ gt_known0 F).
+  - apply negb_false_iff in F. apply memZ_In in F. contradiction.
+Qed.
